@@ -7,3 +7,4 @@ VIEW view
 INVARIANT Consistent
 INVARIANT EmitState
 PROPERTY ExactlyOnce
+PROPERTY InitiallyIgnoredRefused
